@@ -167,6 +167,9 @@ fn generate(rng: &mut Rng, n: u64, _tier: &str, emit: &mut dyn FnMut(Vec<String>
         emit_case(emit, "known", c.as_bytes(), None, None, "-".to_owned(), "-".to_owned(), false, "hook");
         emit_case(emit, "known", c.as_bytes(), Some("The <resource> you requested isn't \"there\" & never was"), Some("4442587FB7D0A2F9"), "-".to_owned(), "-".to_owned(), false, "public");
         emit_case(emit, "custom", c.as_bytes(), None, None, "-".to_owned(), "-".to_owned(), true, "hook");
+        // the other construction routes, bare: the status must be the table's for the FINAL code
+        emit_case(emit, "known", c.as_bytes(), None, None, "-".to_owned(), "-".to_owned(), false, "hook-recoded");
+        emit_case(emit, "known", c.as_bytes(), None, None, "-".to_owned(), "-".to_owned(), false, "public-from");
     }
     // every unit of the alphabet alone in each position
     for u in UNITS.iter().chain(CR_UNITS).chain(NON_XML_UNITS) {
@@ -191,7 +194,8 @@ fn generate(rng: &mut Rng, n: u64, _tier: &str, emit: &mut dyn FnMut(Vec<String>
         let rid = opt_string(rng, 3);
         let no_decl = rng.chance(1, 4);
         let api = if !no_decl && rng.chance(1, 3) { "public" } else { "hook" };
-        emit_case(emit, kind, &code, msg.as_deref(), rid.as_deref(), rand_status(rng), rand_headers(rng), no_decl, api);
+        let api = format!("{api}{}", rng.pick(&["", "", "", "-recoded", "-from", "-withmsg"]));
+        emit_case(emit, kind, &code, msg.as_deref(), rid.as_deref(), rand_status(rng), rand_headers(rng), no_decl, &api);
     }
 }
 
@@ -228,9 +232,23 @@ fn evaluate(f: &[&str]) -> Vec<String> {
     let as_str = code.as_str().to_owned();
     let roundtrip = S3ErrorCode::from_bytes(as_str.as_bytes()).as_ref() == Some(&code);
 
-    let mut e = S3Error::new(code);
-    if let Some(m) = un_opt_hex(f[2]).expect("message") {
-        e.set_message(String::from_utf8(m).expect("utf8"));
+    // the same error reached through the other construction routes of the public API: built under another code and re-coded
+    // (`wrap_sdk_error!` in s3s-aws does that), `From<S3ErrorCode>`, `with_message`
+    let route = f[7].split_once('-').map_or("", |x| x.1);
+    let msg0 = un_opt_hex(f[2]).expect("message").map(|m| String::from_utf8(m).expect("utf8"));
+    let mut e = match route {
+        "recoded" => {
+            let initial = if code == S3ErrorCode::InternalError { S3ErrorCode::NoSuchKey } else { S3ErrorCode::InternalError };
+            let mut e = S3Error::new(initial);
+            e.set_code(code);
+            e
+        }
+        "from" => S3Error::from(code),
+        "withmsg" if msg0.is_some() => S3Error::with_message(code, msg0.clone().unwrap()),
+        _ => S3Error::new(code),
+    };
+    if let Some(m) = msg0 {
+        e.set_message(m);
     }
     if let Some(r) = un_opt_hex(f[3]).expect("request id") {
         e.set_request_id(String::from_utf8(r).expect("utf8"));
@@ -243,7 +261,7 @@ fn evaluate(f: &[&str]) -> Vec<String> {
     }
     let no_decl = f[6] == "1";
 
-    let (status, headers, body) = match f[7] {
+    let (status, headers, body) = match f[7].split('-').next().unwrap_or("") {
         "hook" => match s3s::verif_hooks::ops::serialize_error(e, no_decl) {
             Ok(res) => (res.status, res.headers, res.body),
             Err(_) => return vec!["err".to_owned()],
